@@ -488,11 +488,12 @@ def rule_drift_magnitudes(ctx, rule):
             a, b = e['inner']
             ra, rb = render(a).replace(' ', ''), render(b).replace(' ', '')
             step = [x for x in (ra, rb) if re.fullmatch(r'\(*(r\.)?dt_last_done\)*', x)]
+            mag = [x for x in (ra, rb) if re.fullmatch(r'\(*fabsf?\(+(r\.)?dt_last_done\)+', x)]
             speed = any(y.get('kind') == 'CallExpr' and callee_name(y) == 'sqrt' for x in (a, b) for y in walk(x))
-            if not step or not speed:
+            if not (step or mag) or not speed:
                 continue
             n += 1
-            if id(e) not in inside_fabs:
+            if step and id(e) not in inside_fabs:
                 ctx.report(rule, '%s:drift' % fname, 'src/%s:%s %s' % (cfile, line_of(e), fname),
                            'the drift distance %s carries the sign of the last step: for a backward integration it is negative and the search radius it is added to shrinks - the tree search then misses approaching pairs that the direct line search reports' % render(e))
     ctx.covered(rule, 'drift distances added to search radii are magnitudes (|dt_last_done| times a speed)', n, floor=2)
